@@ -45,7 +45,8 @@ Definition single (c : list Q) : bool := match c with [_] => true | _ => false e
 Definition soft_nf (t : Q) (alpha : list (list Q)) : tnf := map (fun c => if single c then COne else CSoft (shift (logits t c))) alpha.
 Definition hard_nf (t : Q) (alpha : list (list Q)) : tnf := map (fun c => if single c then COne else CHard (argmax (logits t c))) alpha.
 Definition gumbel_nf (t : Q) (h : bool) (noise : nat) (alpha : list (list Q)) : tnf :=
-  map (fun c => if single c then COne else CGumbel c t h noise) alpha.
+  map (fun c => if single c then COne else CGumbel c (if h then 1 else t) h noise) alpha.
+     (* hard Gumbel sample: one-hot of argmax((alpha + g)/t), the same for every t > 0 *)
 
 (* MPSBaseQtz.sample_alpha_sm / _gs / _none  (qtz.py) *)
 Definition mps_sample (k : skind) (training hard : bool) (t : Q) (noise : nat) (alpha : list (list Q)) (old : tnf) : tnf :=
